@@ -360,14 +360,14 @@ func (c *c11Run) timed(kind string) string {
 		d := 60 * time.Millisecond
 		st.SetReadDeadline(time.Now().Add(d))
 		ch := run(func() error { return st.readMore(1) })
-		if r, ok := wait(ch, 2*time.Second, "read with a 60 ms deadline"); ok {
+		if r, ok := wait(ch, 5*time.Second, "read with a 60 ms deadline"); ok {
 			if r.err != ErrTimeout {
 				c.setFail("deadline-wrong-result", fmt.Sprintf("read with a deadline and no data returned %v", r.err))
 			}
 			if r.d < d-2*time.Millisecond {
 				c.setFail("deadline-early", fmt.Sprintf("read with a 60 ms deadline returned after %v", r.d))
 			}
-			if r.d > d+500*time.Millisecond {
+			if r.d > d+1500*time.Millisecond {
 				c.setFail("deadline-late", fmt.Sprintf("read with a 60 ms deadline returned after %v", r.d))
 			}
 		}
@@ -382,7 +382,7 @@ func (c *c11Run) timed(kind string) string {
 			sess.handleStreamMessage(st, bufferSliceWrapper{fallbackSlice: sl}, streamOpened)
 			time.Sleep(5 * time.Millisecond)
 		}
-		if r, ok := wait(ch, 2*time.Second, "read of 5 bytes after 6 bytes arrived"); ok && r.err != nil {
+		if r, ok := wait(ch, 5*time.Second, "read of 5 bytes after 6 bytes arrived"); ok && r.err != nil {
 			c.setFail("read-fails-with-data", fmt.Sprintf("read of 5 bytes returned %v although 6 bytes arrived", r.err))
 		}
 	case "peerclose", "sessionclose":
@@ -395,7 +395,7 @@ func (c *c11Run) timed(kind string) string {
 		} else {
 			sess.Close()
 		}
-		if r, ok := wait(ch, 2*time.Second, "read without deadline after "+kind); ok && r.err == nil {
+		if r, ok := wait(ch, 5*time.Second, "read without deadline after "+kind); ok && r.err == nil {
 			c.setFail("read-ok-without-data", "read of 5 bytes returned nil after "+kind+" with no data")
 		}
 	case "flushfull":
@@ -405,11 +405,11 @@ func (c *c11Run) timed(kind string) string {
 		}
 		st.BufferWriter().WriteString("x")
 		ch := run(func() error { return st.Flush(false) })
-		if r, ok := wait(ch, 3*time.Second, "Flush with the queue full"); ok {
+		if r, ok := wait(ch, 6*time.Second, "Flush with the queue full"); ok {
 			if r.err == nil {
 				c.setFail("flush-ok-on-full-queue", "Flush returned nil although the queue was full all the time")
 			}
-			if r.d > time.Second {
+			if r.d > 2*time.Second {
 				c.setFail("flush-late", fmt.Sprintf("Flush on a full queue returned after %v (ten 10 ms retries expected)", r.d))
 			}
 		}
@@ -418,7 +418,7 @@ func (c *c11Run) timed(kind string) string {
 		ch := run(func() error { _, err := sess.AcceptStream(); return err })
 		time.Sleep(20 * time.Millisecond)
 		sess.Close()
-		if r, ok := wait(ch, 2*time.Second, "AcceptStream after Session.Close"); ok && r.err == nil {
+		if r, ok := wait(ch, 5*time.Second, "AcceptStream after Session.Close"); ok && r.err == nil {
 			c.setFail("accept-ok-after-close", "AcceptStream returned a stream after the session was closed")
 		}
 	default:
